@@ -328,3 +328,123 @@ def unit_validate():
         return [{"contract": validate_contract(f), "label": "format " + f,
                  "assumptions": ["class invariant of DataFormat: every property holds a value of its documented set (established by set_property, verified in data.DataFormat.set_property)"]} for f in FORMATS]
     return ProofUnit("data.DataFormat.validate", "DataFormat.validate: contradictions refused; an accepted delimited format satisfies the csv round-trip precondition", ["C11", "C12"], make, ValidateOracle())
+
+
+# =====================================================================================================================
+# DataFormat._validated_character: the spellings of a character (C11); token level for the tokenised branch
+# =====================================================================================================================
+import token as TK
+TOKEN2 = Tup(INT, STR)
+
+
+def unit_validated_character():
+    T2 = sort_of(TOKEN2); ttype = T2.accessor(0, 0); ttext = T2.accessor(0, 1)
+    NAMES = {"cr": 13, "ff": 12, "lf": 10, "tab": 9, "vt": 11}
+    def m_generated_tokens(ex, st, fn, args, kw):
+        it = Ref("TokenIter"); st.heap[it.oid] = {"cursor": 0}; st.ghost["iter"] = it; st.ghost["tokenized"] = args[0]; yield st, it
+    def tok_next(ex, st, recv, args, kw):
+        o = st.heap[recv.oid]; T = st.ghost["T"]; c = lift(o["cursor"]).z
+        if not st.ghost.get("started"):
+            sb = st.copy(); sb.ghost["tok_failed"] = True; yield sb, Raise(ex.new_builtin_exc(sb, "TokenError", ["cannot tokenize"]))
+        st.ghost["started"] = True
+        if feasible(st.pc, c >= T.length):
+            sb = st.copy(); sb.pc.append(c >= T.length); yield sb, Raise(ex.new_builtin_exc(sb, "StopIteration", []))
+        st.pc.append(z3.And(c >= 0, c < T.length)); o["cursor"] = Sym(INT, c + 1)
+        yield st, Sym(TOKEN2, T.at(c))
+    def setup(ex, st):
+        value = fresh(STR, "value")[0]
+        T, c = fresh(UFList(TOKEN2), "T"); st.pc.extend(c)
+        # A-TOK: a finite token list ending in exactly one ENDMARKER (generated_tokens drops the synthetic NEWLINE before it)
+        st.pc.append(T.length >= 1); st.pc.append(ttype(T.at(T.length - 1)) == TK.ENDMARKER)
+        j = z3.Int("j"); st.pc.append(z3.ForAll([j], z3.Implies(z3.And(0 <= j, j < T.length - 1), ttype(T.at(j)) != TK.ENDMARKER)))
+        # A-TOK/A-INT: a NUMBER token carries no sign, so its value is never negative
+        st.pc.append(z3.Implies(z3.And(ttype(T.at(0)) == TK.NUMBER, ex.absfun_s("int0_parses", [z3.StringSort()], z3.BoolSort())(ttext(T.at(0)))), ex.absfun_s("int0_value", [z3.StringSort()], z3.IntSort())(ttext(T.at(0))) >= 0))
+        st.frames[-1].env.update({"key": "item_delimiter", "value": value, "location": None})
+        st.ghost.update({"value": value, "T": T, "started": False, "tok_failed": False})
+    def denotation(ex, st):
+        """(is a documented spelling, code point) for the token list"""
+        T = st.ghost["T"]; t0 = T.at(0); text = ttext(t0)
+        int0p = ex.absfun_s("int0_parses", [z3.StringSort()], z3.BoolSort()); int0v = ex.absfun_s("int0_value", [z3.StringSort()], z3.IntSort())
+        low = lower_of(ex, text)
+        name_ok = z3.And(ttype(t0) == TK.NAME, z3.Or(*[low == n for n in NAMES]))
+        name_code = z3.IntVal(0)
+        for n, code in NAMES.items(): name_code = z3.If(low == n, code, name_code)
+        num_ok = z3.And(ttype(t0) == TK.NUMBER, int0p(text), int0v(text) >= 0, int0v(text) <= 0x10FFFF)
+        q = z3.SubString(text, 0, 1)
+        str_plain = z3.And(ttype(t0) == TK.STRING, z3.Length(text) == 3, z3.Or(q == "\"", q == "'"), z3.SubString(text, 2, 1) == q)
+        single = z3.And(ttype(t0) != TK.NAME, ttype(t0) != TK.NUMBER, ttype(t0) != TK.STRING, ttype(t0) != TK.ENDMARKER, z3.Length(text) == 1)
+        one_token = T.length == 2
+        ok_ = z3.And(one_token, z3.Or(name_ok, num_ok, str_plain, single))
+        code = z3.If(name_ok, name_code, z3.If(num_ok, int0v(text), z3.If(str_plain, z3.StrToCode(z3.SubString(text, 1, 1)), z3.StrToCode(text))))
+        return ok_, code, str_plain
+    def make(ctx):
+        def literal(ex, st):
+            sv = strip_of(ex, G(st, "value")); return z3.And(z3.Length(sv) == 1, z3.Not(z3.Contains(z3.StringVal("0123456789"), sv))), sv
+        def post(ex, st):
+            r = lift(st.ghost["__result__"]).z; lit, sv = literal(ex, st); ok_, code, _ = denotation(ex, st)
+            return Sym(BOOL, z3.If(lit, r == sv, z3.And(ok_, r == z3.StrFromCode(code))))
+        def post_raise(ex, st):
+            lit, sv = literal(ex, st); ok_, code, str_plain = denotation(ex, st); T = st.ghost["T"]; t0 = T.at(0)
+            # quoted strings with escape sequences go through unicode_escape (outside the subset: bounded stand-in): not claimed either way here
+            escaped_string = z3.And(ttype(t0) == TK.STRING, z3.Not(str_plain))
+            return Sym(BOOL, z3.And(z3.Not(lit), z3.Or(z3.BoolVal(bool(st.ghost["tok_failed"])), z3.Not(ok_), escaped_string)))
+        def post2(ex, st):
+            if st.ghost.get("escaped"): return Sym(BOOL, z3.BoolVal(True))       # escape-sequence spelling: bounded stand-in
+            return post(ex, st)
+        c = Contract("data.DataFormat._validated_character", setup,
+                returns=[Clause(post2, "a-literal-non-digit-character-a-decimal-or-0x-code-a-quoted-character-or-a-symbolic-name-all-denote-the-same-character", props=["C11"])],
+                raises={"InterfaceError": [Clause(post_raise, "refused-only-if-not-a-documented-spelling", props=["C11"])]},
+                expect=["return", "InterfaceError"], n_loops=0, raises_only_props=["C10", "C11"])
+        def m_code_string(ex, st, fn, args, kw):
+            text = lift(args[1]).z; q = z3.SubString(text, 0, 1)
+            plain = z3.And(z3.Length(text) == 3, z3.Or(q == "\"", q == "'"), z3.SubString(text, 2, 1) == q)
+            for s2, b in ex.fork(st, Sym(BOOL, plain)):
+                if b: yield s2, Sym(INT, z3.StrToCode(z3.SubString(text, 1, 1)))
+                else:
+                    okb = fresh(BOOL, "escape_ok")[0]
+                    for s3, b2 in ex.fork(s2, okb):
+                        if b2:
+                            v = fresh(INT, "escaped_code")[0]; s3.pc.append(z3.And(v.z >= 0, v.z <= 0x10FFFF)); s3.ghost["escaped"] = True; yield s3, v
+                        else: yield from raise_new(ex, s3, "InterfaceError")
+        return {"contract": c, "callees": {"data.generated_tokens": ModelContract(m_generated_tokens), "_tools.generated_tokens": ModelContract(m_generated_tokens), "ref:TokenIter.__next__": tok_next,
+                                           "ranges.code_for_string_token": ModelContract(m_code_string)},
+                "assumptions": ["A-TOK: generated_tokens(value) is a finite token list ending in one ENDMARKER or raises TokenError at the first next(); A-INT: int(text, 0); A-STR: strip/lower uninterpreted",
+                                "code_for_string_token is used through a model here (plain 3-character strings: the middle character; strings with escape sequences: some code point or InterfaceError, since unicode_escape is outside the subset and covered by the bounded spelling sweep); its real body is verified inlined in the Range.__init__ proofs"]}
+    return ProofUnit("data.DataFormat._validated_character", "_validated_character: every documented spelling of a code point yields chr(code) (token level)", ["C11", "C10"], make, None)
+
+
+def unit_character_spellings():
+    def run(ctx):
+        from cutplace import data, errors
+        pool = list(range(33, 127)) + [9, 10, 13, 11, 12, 32, 0xe4, 0x20ac, 0x10ffff]
+        names = {13: "cr", 12: "ff", 10: "lf", 9: "tab", 11: "vt"}
+        def cases():
+            for c in pool:
+                ch = chr(c)
+                if not ch.isdigit() and not ch.isspace(): yield (c, "literal", ch); yield (c, "literal with blanks", " " + ch + "  ")
+                yield (c, "decimal", str(c)); yield (c, "hex", hex(c)); yield (c, "HEX", "0X%X" % c)
+                esc = {9: "\\t", 10: "\\n", 13: "\\r", 34: '\\"', 92: "\\\\"}.get(c, ch if c < 0x7f and c >= 32 else "\\u%04x" % c if c <= 0xffff else "\\U%08x" % c)
+                yield (c, "quoted", '"%s"' % esc)
+                if c != 39: yield (c, "single quoted", "'%s'" % (esc if c != 34 else '"'))
+                yield (c, "hex escape in quotes", '"\\x%02x"' % c if c <= 0xff else '"\\u%04x"' % c if c <= 0xffff else '"\\U%08x"' % c)
+                if c in names:
+                    for n in (names[c], names[c].upper(), names[c].title() + " "): yield (c, "symbolic", n)
+        def check(c):
+            code, kind, text = c
+            try: got = data.DataFormat._validated_character("item delimiter", text, None)
+            except errors.InterfaceError as e: return {"expected": "%s spelling %r denotes %r" % (kind, text, chr(code)), "observed": "InterfaceError: %s" % str(e)[:80]}
+            except Exception as e: return {"expected": "%r" % chr(code), "observed": repr(e)}
+            return None if got == chr(code) else {"expected": "%s spelling %r denotes %r" % (kind, text, chr(code)), "observed": repr(got)}
+        r1 = sweep("C11/spellings/every spelling of every code point in the pool denotes the same character", cases(), check, "bounded",
+                   "printable ASCII, tab, CR, LF, VT, FF, blank, U+00E4, U+20AC, U+10FFFF x spellings {literal, literal with blanks, decimal, 0x / 0X hex, double / single quoted with escapes, \\x / \\u escapes, symbolic names in 3 cases}",
+                   describe=lambda c: {"code_point": c[0], "spelling": c[1], "text": c[2]}, function="data.DataFormat._validated_character", unit="C11.spellings", props=["C11"])
+        def bad_cases():
+            for t in ["", " ", "   ", "ab", "1 2", "x y", "'ab'", "''", "0x", "1.5", "-1", "1114112", "tab lf", "nosuchname", "((", "'a", "1e3", "0x110000"]: yield t
+        def bad_check(t):
+            try: got = data.DataFormat._validated_character("item delimiter", t, None)
+            except errors.InterfaceError: return None
+            except Exception as e: return {"expected": "InterfaceError for %r" % t, "observed": repr(e)}
+            return {"expected": "malformed spelling %r refused" % t, "observed": "accepted as %r" % got}
+        r2 = sweep("C11/spellings/malformed spellings are refused", bad_cases(), bad_check, "bounded", "18 malformed spellings", function="data.DataFormat._validated_character", unit="C11.spellings", props=["C11", "C10"])
+        return [r1, r2]
+    return NativeUnit("C11.spellings", "bounded stand-in for the character spellings (tokenizer + unicode_escape)", ["C11", "C10"], run, kind="bounded")
